@@ -20,7 +20,7 @@
    (it is go/types); it is checked by building generated packages.  The lowering is tied to the
    code by the structural correspondence and the differential check against the explicit pull loop. *)
 From Coq Require Import List.
-From Verif Require Import Base Syntax Sem Rewrite Side Delegate DelegateMain.
+From Verif Require Import Base Syntax Sem Rewrite Side Delegate DelegateMain Link LinkMachine.
 Import ListNotations.
 
 Theorem C06_range_is_consume :
@@ -77,3 +77,30 @@ Proof. vm_compute. reflexivity. Qed.
 Example C06_hyps_hold_1 :
   c01_hyps (rg_stmt 1 2 3 [SAtom 4; SIf None 5 [SContinue] ENone; SYield 6; SIf None 7 [SBreak] ENone] :: [SYield 8]) = true.
 Proof. vm_compute. reflexivity. Qed.
+
+(* ... and on the machine model of seq/seq.go (range over an iterator inside a generator) *)
+Theorem C06_machine_range_partial :
+  forall (U V P : Type)
+         (aden : nat -> U -> outcome U P unit) (cden : nat -> U -> outcome U P bool)
+         (tden : nat -> U -> outcome U P nat) (kval : nat -> nat) (yden : nat -> U -> outcome U P V)
+         (env : nat -> V -> U -> U * bool) (zeroV : V)
+         (a_init c_mn : nat)
+         (start : U -> outcome U P unit) (mn : U -> outcome U P bool),
+    (forall u, aden a_init u = start u) ->
+    (forall u, cden c_mn u = mn u) ->
+    forall (a_bind : nat) (B rest : list stmt),
+      c01_hyps (rg_stmt a_init c_mn a_bind B :: rest) = true ->
+      exists out, rewrite (rg_stmt a_init c_mn a_bind B :: rest) = OK out /\
+        (forallb (lk KS) out = true ->
+         forall n u c,
+           rg_then U V P aden cden tden kval yden env start mn a_bind B rest n u = Some c -> final_of c <> FStuck ->
+           exists M, forall N F, M <= N -> M <= F ->
+             machine_target U V P aden cden tden kval yden env zeroV KS out u N F = Some (final_of c)).
+Proof.
+  intros U V P aden cden tden kval yden env zeroV a_init c_mn start mn H1 H2 a_bind B rest Hh.
+  destruct (compiled_range_iter U V P aden cden tden kval yden env a_init c_mn start mn H1 H2 a_bind B rest Hh) as [out [Ho Hc]].
+  exists out. split; [exact Ho|]. intros Hlk n u c Hy Hns.
+  destruct (Hc n u c Hy Hns) as [m Hm].
+  exact (machine_link U V P aden cden tden kval yden env zeroV KS out m u (final_of c) Hlk Hm Hns).
+Qed.
+Print Assumptions C06_machine_range_partial.
